@@ -277,6 +277,9 @@ MUTANTS = [
  ("r8-c12-end-deleverage-skips-health-comparison-when-debt-free", M+"instructions/marginfi_account/liquidate_end.rs",
   "    if pre_health > post_health {",
   "    if pre_health > post_health && !(ignore_healthy && _post_liabs == I80F48::ZERO) {", ["C12", "C10"]),
+ ("c08-permissionless-pool-owner-unchecked", M+"instructions/marginfi_group/add_pool_permissionless.rs",
+  "    check!(\n        stake_pool.owner == &SPL_SINGLE_POOL_ID,\n        MarginfiError::StakePoolValidationFailed\n    );\n",
+  "    let _ = &SPL_SINGLE_POOL_ID;\n", ["C08"]),
 ]
 
 def sh(cmd, **kw):
